@@ -108,6 +108,28 @@ Theorem C07_clip_keeps_direction : forall (x : list Q) c n, 0 <= c -> 0 <= n ->
               y =v= vscale s x /\ (c < n -> s == c / n).
 Proof. exact clip_keeps_direction. Qed.
 
+(* the remaining translated helpers *)
+Theorem C07_tree_weight_is_scale : forall (p : list Q) w,
+  tree_weight (vlift p) (Some w) = vlift (rscale w p) /\ rscale w p =v= vscale w p.
+Proof. exact tree_weight_is_scale. Qed.
+
+Theorem C07_tree_add_is_vadd : forall a b : list Q, tree_add (vlift a) (vlift b) = vlift (vadd a b).
+Proof. exact tree_add_is_vadd. Qed.
+
+Theorem C07_zeros_like : forall x : list Q, tree_zeros_like (vlift x) = vlift (vzero (length x)).
+Proof. exact tree_zeros_like_lift. Qed.
+
+(* a non-finite coordinate (None) of ANY input tree, whatever its weight, makes exactly that coordinate of
+   tree_sum / tree_mean non-finite: it is never dropped or turned into a finite number *)
+Theorem C07_nonfinite_propagates :
+  (forall n i trees, (i < n)%nat -> Forall (fun t => length t = n) trees ->
+     Exists (fun t => coord i t = None) trees ->
+     exists v, tree_sum trees = Some v /\ length v = n /\ coord i v = None) /\
+  (forall n i cl, (i < n)%nat -> Forall (fun c => length (fst c) = n) cl ->
+     Exists (fun c => coord i (fst c) = None) cl ->
+     exists v, tree_mean cl = Some v /\ length v = n /\ coord i v = None).
+Proof. exact nonfinite_propagates. Qed.
+
 (* T: both translated inverse-weight guards are WMean.inv_weight (1/w if w > 0 else 0) *)
 Theorem C07_inverse_weight_guard : forall (p : list Q) w,
   tree_inverse_weight (vlift p) (Some w) = vlift (rscale (inv_weight w) p) /\
@@ -128,6 +150,17 @@ Example C07_example :
   wf_store (mk_store 1 []).
 Proof. vm_compute. repeat split. intros l []. Qed.
 
+(* the hypotheses of the theorems are satisfiable on non-trivial instances *)
+Example C07_hypotheses :
+  is_l2_norm 5 (vlift [3; 4]) /\ (5 * 5 == sumsq [3; 4]) /\
+  Forall (fun c : list Q * Q => 0 <= snd c) [([1; 2], 1); ([3; 6], 0)] /\ 0 < qsum (map snd [([1; 2], 1); ([3; 6], (0 : Q))]) /\
+  Exists (fun t => coord 1 t = None) [[Some 1; None]; [Some 2; Some 3]] /\
+  C07_agree (KMeanNQ [([Some 1; None], Some 1); ([Some 3; Some 5], Some 1)]) (mkO07 0 (Some [Some 2; None])) = true.
+Proof.
+  split; [split; [discriminate|reflexivity]|]. split; [reflexivity|]. split; [repeat constructor; discriminate|].
+  split; [reflexivity|]. split; [left; reflexivity|vm_compute; reflexivity].
+Qed.
+
 Print Assumptions C07_tree_mean_is_wmean.
 Print Assumptions C07_zero_total_zero_not_nan.
 Print Assumptions C07_order_independent.
@@ -142,4 +175,8 @@ Print Assumptions C07_l2_norm_is_sqrt_sumsq.
 Print Assumptions C07_clip_norm_le_bound.
 Print Assumptions C07_clip_identity_below_bound.
 Print Assumptions C07_clip_keeps_direction.
+Print Assumptions C07_tree_weight_is_scale.
+Print Assumptions C07_tree_add_is_vadd.
+Print Assumptions C07_zeros_like.
+Print Assumptions C07_nonfinite_propagates.
 Print Assumptions C07_inverse_weight_guard.
